@@ -419,3 +419,8 @@ def run(prog: Program, L: Ledger) -> None:
     # default criteria used by drivers are covered
     check_properties(prog, L)
     check_particle_number(prog, L)
+    # the kinetic energy K0 the Hamiltonian formula reads must be that of the momenta the trajectory started from
+    from . import c14
+
+    L.rule("H", "context.last_kinetic_energy, read by the Hamiltonian criterion as the initial kinetic energy, is on every abstract path that of the momenta present when the integrator starts")
+    c14.check_kinetic_reference(prog, L, "H")
